@@ -46,6 +46,10 @@ func runDump(args []string) int {
 			fmt.Printf("       %s\n", truncate(o.Model, 300))
 		}
 	}
+	for _, u := range res.Inferred {
+		fmt.Println("INFERRED:", u)
+	}
+	fmt.Println("inference queries:", res.InferQueries)
 	for _, u := range res.Unsup {
 		fmt.Println("UNSUPPORTED:", u)
 	}
